@@ -8,6 +8,7 @@ import (
 
 	"github.com/idena-network/idena-go/blockchain/types"
 	"github.com/idena-network/idena-go/blockchain/validation"
+	"github.com/idena-network/idena-go/config"
 	"github.com/idena-network/idena-go/core/state"
 	"pgregory.net/rapid"
 )
@@ -22,6 +23,8 @@ type Options struct {
 	OnlyTypes            []types.TxType
 	Zones                bool // give replicas different host time zones
 	Restarts             bool // restart replicas from their DB at drawn points
+	FatTxs               bool // see World.FatTxs
+	Upgrades             bool // worlds that start on consensus version 9 activate 10, 11, 12 at drawn block boundaries
 	Params               func(*Params)
 
 	// BeforeDeliver is called with the proposer and its proposal (nil proposer for an empty block)
@@ -74,6 +77,7 @@ func RunHistory(t *rapid.T, opt Options) *History {
 		opt.Params(&p)
 	}
 	w := NewWorld(p)
+	w.FatTxs = opt.FatTxs
 	h := &History{T: t, W: w, Opt: opt, Flags: map[string]int{}, TxMix: map[string]int{}}
 	if opt.Replicas < 1 {
 		opt.Replicas = 1
@@ -161,6 +165,10 @@ func (h *History) Step() {
 			t.Fatalf("clean restart of %s changed the head", r.Name)
 		}
 		h.Note("restart")
+	}
+	if opt.Upgrades && w.Version < config.ConsensusV12 && rapid.IntRange(0, 7).Draw(t, "upgrade") == 0 {
+		w.UpgradeTo(w.Version + 1)
+		h.Note(fmt.Sprintf("upgrade-to-%d", w.Version))
 	}
 	if opt.BetweenBlocks != nil {
 		opt.BetweenBlocks(h)
